@@ -1,9 +1,13 @@
 import GlonaxModel.Driver.C07
+import GlonaxModel.Driver.Hcu
 open Glonax.Driver
 
 def dispatch (prop : String) (inp out : List String) : Verdict :=
   match prop with
   | "C07" => C07.check inp out
+  | "C01" => C01.check inp out
+  | "C02" => C02.check inp out
+  | "C17" => C17.check inp out
   | _ => .bad s!"unknown property {prop}"
 
 structure Tally where
